@@ -82,6 +82,7 @@ func main() {
 				}
 			}()
 		}
+		os.RemoveAll(d) // (deferred calls do not run across os.Exit)
 		os.Exit(rc)
 	}
 	fn, ok := registry[*prop]
@@ -90,9 +91,10 @@ func main() {
 		os.Exit(2)
 	}
 	evDir := *verif
+	scratch := ""
 	if *noEvidence {
 		d, _ := os.MkdirTemp("", "hidicheck-ev")
-		defer os.RemoveAll(d)
+		scratch = d
 		evDir = d
 	}
 	code := func() (code int) {
@@ -147,6 +149,9 @@ func main() {
 		}
 		return c.Finish(evDir, seed, start, known, extra)
 	}()
+	if scratch != "" {
+		os.RemoveAll(scratch) // tooling runs (-no-evidence): nothing is kept; registered commands write to /verif/evidence
+	}
 	os.Exit(code)
 }
 
